@@ -39,6 +39,15 @@ Theorem C15_all_descriptors_owned : forall c root h,
   HInv s /\ leaked s = 0 /\ fds s = fds_owned s.
 Proof. exact all_descriptors_owned. Qed.
 
+(* a RELEASE / RELEASEDIR of a held pair always releases, with any flush flag: it allocates no descriptor *)
+Theorem C15_release_always_releases : forall c s (dir : bool) i h fl,
+  (if dir then no_opendir c else no_open c) = false -> handle_get s h i = true ->
+  fst (hstep c s (HRelease dir i h fl)) = HUnit /\
+  hget (snd (hstep c s (HRelease dir i h fl))) h = None /\
+  mget N.eqb (cookies (snd (hstep c s (HRelease dir i h fl)))) h = None /\
+  fds (snd (hstep c s (HRelease dir i h fl))) = fds s - 1.
+Proof. exact release_always_releases. Qed.
+
 (* ---- quiescence: full strength (it was refuted by defect D8 until the fix 872fe91, and by D9 until cecedb6).
    Host hypothesis [wf_t]/[hop_wf]: with inode_file_handles every file of the export yields a file handle. *)
 Definition C15_full : Prop := quiescent_full.
@@ -80,3 +89,4 @@ Print Assumptions C15_all_descriptors_owned.
 Print Assumptions C15_full_holds.
 Print Assumptions C15_quiescent_tables.
 Print Assumptions C15_inode_invariant.
+Print Assumptions C15_release_always_releases.
